@@ -7,7 +7,8 @@ from typing import Dict, List, Set
 from .. import determinism
 from ..program import (AnalysisError, Func, call_name, const_str, dotted,
                        kwarg, norm_key, unparse, walk_no_nested)
-from ..util import is_self_attr, nodes_with_call, subscript_const
+from ..util import (is_self_attr, nodes_with_call, subscript_const,
+                    through_copies)
 
 EXPLANATION = (
     'Decided clauses: R-C09.1 every add_dependency call site passes its '
@@ -20,8 +21,11 @@ EXPLANATION = (
     'deterministically (every set-typed edge container is iterated through '
     'sorted(key=insert_index)); R-C09.4 get_ordered emits every node at most '
     'once (append guarded by the result set, which is updated); R-C09.5 '
-    'requirements that cannot all be met have an error path in '
-    'finalize/get_ordered; R-C09.6 grouping the ordered nodes into execution '
+    'requirements that cannot all be met are reported by get_ordered: a '
+    'raise guarded by membership of a scheduled dependency in the walk\'s '
+    'in-progress set (cycle reachable from a leaf) and a raise guarded by a '
+    'comparison of the emitted nodes with the node table that dominates '
+    'every return (cycle no leaf reaches); R-C09.6 grouping the ordered nodes into execution '
     'batches preserves their order (no regrouping by task across '
     'interleaved nodes); R-C09.7 every mapping attribute of the graph classes '
     'is filled and probed with the same kind of key (app object vs app label '
@@ -35,7 +39,8 @@ NOT_DECIDED = (
 TECHNIQUE = ('argument-direction table over all add_dependency call sites '
              '(data dependence on the loop variable vs the current node), '
              'key-vocabulary agreement, order-taint (determinism engine), '
-             'guarded-append pairing, existence of an error path, '
+             'guarded-append pairing, guard provenance of the two cycle-error '
+             'raises plus CFG dominance over the returns, '
              'order-preserving regroup check')
 LEVEL_NOTE = ('Trusted: Python ast, CFG; the direction rule identifies the '
               'current node by the local bound from node.key / node.')
@@ -385,30 +390,156 @@ def r4_exact_once(ctx):
                     key='no-tail-yield')
 
 
+def _guards_of(fn, target):
+    """Tests of the If statements that enclose *target* in fn (syntactic
+    guards, with polarity: True when target is in the body)."""
+    out = []
+
+    def rec(stmts, acc):
+        for st in stmts:
+            if st is target:
+                out.extend(acc)
+                return True
+            if isinstance(st, ast.If):
+                if rec(st.body, acc + [(st.test, True)]) or \
+                        rec(st.orelse, acc + [(st.test, False)]):
+                    return True
+            elif isinstance(st, (ast.For, ast.While, ast.With, ast.Try)):
+                for blk in ('body', 'orelse', 'finalbody'):
+                    if rec(getattr(st, blk, []) or [], acc):
+                        return True
+                for h in getattr(st, 'handlers', []):
+                    if rec(h.body, acc):
+                        return True
+        return False
+    rec(fn.body, [])
+    return out
+
+
 def r5_error_path(ctx):
+    """Requirements that cannot all be met (a dependency cycle) are reported.
+    Two structural obligations on get_ordered, both necessary:
+      (a) back edge: where the walk expands a node and schedules its
+          dependencies, a dependency that is itself expanded-but-not-yet-
+          emitted (membership in the set the expansion branch adds to) leads
+          to a raise;
+      (b) completeness: the normal return is preceded by a raise guarded by a
+          comparison of what was emitted with the graph's node table (a cycle
+          no leaf reaches emits nothing)."""
     ctx.rule('R-C09.5')
     p = ctx.program
-    hits = []
-    for q in ('DependencyGraph.finalize', 'DependencyGraph.get_ordered'):
-        f = p.func(G, q)
-        for n in walk_no_nested(f.node):
-            if isinstance(n, ast.Raise):
-                hits.append((f, n))
-            if isinstance(n, ast.Assert) and ('stack' in unparse(n.test) or
-                                              'processed' in unparse(n.test)
-                                              or 'visiting' in unparse(n.test)
-                                              or 'cycle' in unparse(n).lower()):
-                hits.append((f, n))
     f = p.func(G, 'DependencyGraph.get_ordered')
-    if hits:
-        ctx.ok(f, 'an error path exists for unmeetable requirements',
-               hits[0][1])
+    fn = f.node
+    raises = [n for n in walk_no_nested(fn) if isinstance(n, ast.Raise)]
+    ctx.counts['R-C09.5 raise statements in get_ordered'] = len(raises)
+    rets = [n for n in walk_no_nested(fn) if isinstance(n, ast.Return) and
+            isinstance(n.value, ast.Name)]
+    if not rets:
+        raise AnalysisError('R-C09.5: get_ordered no longer returns a local')
+    result = rets[-1].value.id
+    # blocks of the walk: the ones that emit (result.append) and the ones
+    # that expand (read .dependencies); sets added to in an emitting block
+    # are "emitted" sets, sets added to in an expanding block "in-progress"
+    dep_sites = [n for n in walk_no_nested(fn)
+                 if isinstance(n, ast.Attribute) and n.attr == 'dependencies']
+    if not dep_sites:
+        raise AnalysisError('R-C09.5: get_ordered no longer reads '
+                            '.dependencies')
+    blocks = []
+    for n in walk_no_nested(fn):
+        for blk in ('body', 'orelse', 'finalbody'):
+            b = getattr(n, blk, None)
+            if isinstance(b, list) and b and isinstance(b[0], ast.stmt):
+                blocks.append(b)
+    emitted, in_progress = {result}, set()
+    for b in blocks:
+        inner = [c for st in b for c in ast.walk(st)]
+        adds = {c.func.value.id for c in inner
+                if isinstance(c, ast.Call) and
+                isinstance(c.func, ast.Attribute) and c.func.attr == 'add'
+                and isinstance(c.func.value, ast.Name)}
+        has_append = any(isinstance(c, ast.Call) and
+                         isinstance(c.func, ast.Attribute) and
+                         c.func.attr == 'append' and
+                         isinstance(c.func.value, ast.Name) and
+                         c.func.value.id == result for c in inner)
+        has_deps = any(c is d for c in inner for d in dep_sites)
+        if has_append and not has_deps:
+            emitted |= adds
+        if has_deps and not has_append:
+            in_progress |= adds
+    in_progress -= emitted
+    ctx.counts['R-C09.5 in-progress sets of the walk'] = len(in_progress)
+
+    def mentions(expr, names):
+        return any(isinstance(x, ast.Name) and x.id in names
+                   for x in ast.walk(expr))
+
+    def is_attr(expr, attr):
+        return any(isinstance(x, ast.Attribute) and x.attr == attr
+                   for x in ast.walk(expr))
+
+    back_edge = None
+    complete = None
+    for r in raises:
+        for test, pol in _guards_of(fn, r):
+            if not pol:
+                continue
+            for c in ast.walk(test):
+                if not isinstance(c, ast.Compare) or len(c.ops) != 1:
+                    continue
+                left, op, right = c.left, c.ops[0], c.comparators[0]
+                if isinstance(op, ast.In) and isinstance(right, ast.Name) \
+                        and right.id in in_progress:
+                    back_edge = r
+                sides = [through_copies(f, left), through_copies(f, right)]
+                em = [mentions(x, emitted) for x in sides]
+                nd = [is_attr(x, '_nodes') for x in sides]
+                if isinstance(op, ast.NotEq) and \
+                        ((em[0] and nd[1]) or (em[1] and nd[0])):
+                    complete = r
+                if isinstance(op, ast.Lt) and em[0] and nd[1]:
+                    complete = r
+                if isinstance(op, ast.Gt) and em[1] and nd[0]:
+                    complete = r
+    if back_edge is not None:
+        ctx.ok(f, 'a dependency that is still being expanded (an ancestor '
+               'in the walk) raises', back_edge)
     else:
-        ctx.finding(f, None, 'neither finalize nor get_ordered has an error '
-                    'path for requirements that cannot all be met (a '
-                    'dependency cycle): the nodes are silently dropped or '
-                    'emitted in an order that breaks a requirement',
+        ctx.finding(f, None, 'get_ordered schedules the dependencies of a '
+                    'node without an error path for a dependency that is '
+                    'itself still waiting on its dependencies (a cycle '
+                    'reachable from a leaf): the nodes are emitted in an '
+                    'order that breaks a requirement',
                     key='no-cycle-error')
+    if complete is not None:
+        # it must not be bypassed: every normal return comes after it
+        g = ctx.cfg(f)
+        ifn = next(t for t, _ in [(x, 0) for x in walk_no_nested(fn)
+                                  if isinstance(x, ast.If) and
+                                  complete in list(ast.walk(x))])
+        bypass = False
+        for ret in [n for n in walk_no_nested(fn)
+                    if isinstance(n, ast.Return)]:
+            rn = next((x for x in g.nodes if x.stmt is ret), None)
+            tn = next((x for x in g.nodes if x.stmt is ifn and
+                       x.kind in ('if', 'test', 'branch')), None) or \
+                next((x for x in g.nodes if x.stmt is ifn), None)
+            if rn is not None and tn is not None and \
+                    not g.dominates(tn, rn):
+                bypass = True
+        if bypass:
+            ctx.finding(f, complete, 'a return of get_ordered is not '
+                        'preceded by the emitted-vs-known-nodes check',
+                        key='completeness-check-bypassed')
+        else:
+            ctx.ok(f, 'the normal return is preceded by a raise when fewer '
+                   'nodes were emitted than the graph holds', complete)
+    else:
+        ctx.finding(f, None, 'get_ordered returns without comparing what it '
+                    'emitted with the graph\'s node table: a cycle that no '
+                    'leaf node reaches is silently dropped (nothing is '
+                    'executed, no error)', key='no-completeness-error')
 
 
 def r6_batches_preserve_order(ctx):
